@@ -76,6 +76,8 @@ func checkMeta(c packcase.Case) error {
 			bodySum += e.BodyLen
 		} else if e.BodyLen != 0 {
 			return fmt.Errorf("non-regular entry %q carries %d content bytes", e.Name, e.BodyLen)
+		} else if e.Size != 0 {
+			return fmt.Errorf("non-regular entry %q (type %c) records the size %d in its header although nothing is stored for it: the header sizes add up to more than Meta.Size", e.Name, e.Typeflag, e.Size)
 		}
 	}
 	if run.Meta.Size != bodySum || run.Meta.Size != hdrSum {
@@ -219,6 +221,8 @@ func metaMatches(what string, meta *slug.Meta, data []byte) error {
 		if e.Typeflag == tar.TypeReg {
 			hdrSum += e.Size
 			bodySum += e.BodyLen
+		} else if e.Size != 0 {
+			return fmt.Errorf("%s: non-regular entry %q records the size %d in its header", what, e.Name, e.Size)
 		}
 	}
 	if fmt.Sprint(meta.Files) != fmt.Sprint(names) {
